@@ -147,6 +147,15 @@ func (db *ContractDB) parseFile(pkgPath, file, text string) error {
 		cl := &Clause{Kind: fields[0], Line: i + 1}
 		rest := strings.TrimSpace(body[len(fields[0]):])
 		switch fields[0] {
+		case "walk":
+			var k int
+			if _, err := fmt.Sscanf(fields[1], "%d", &k); err != nil || len(fields) < 3 || fields[2] != "invariant" {
+				return fmt.Errorf("%s:%d: expected 'walk <k> invariant'", file, i+1)
+			}
+			cl.Kind = "walkinv"
+			cl.Loop = k
+			idx := strings.Index(rest, "invariant")
+			rest = strings.TrimSpace(rest[idx+len("invariant"):])
 		case "loop":
 			// loop <k> invariant <expr>
 			var k int
@@ -208,7 +217,7 @@ func (c *Contract) Prepare() error {
 	for _, cl := range c.Clauses {
 		var err error
 		switch cl.Kind {
-		case "requires", "ensures", "invariant", "let", "panics", "succeeds":
+		case "requires", "ensures", "invariant", "walkinv", "let", "panics", "succeeds":
 			cl.node, err = ParseSpec(cl.Text)
 		case "assigns":
 			if strings.TrimSpace(cl.Text) == `\nothing` {
